@@ -15,6 +15,7 @@ import (
 	"path/filepath"
 	"reflect"
 	"regexp"
+	"sort"
 	"strings"
 	"time"
 )
@@ -398,15 +399,16 @@ func ReduceStepsMetadata(layout Layout,
 				"', no link metadata found.")
 		}
 
-		// Get the first link (could be any link) for the current step, which will
-		// serve as reference link for below comparisons
-		var referenceKeyID string
-		var referenceLinkEnv Metadata
-		for keyID, linkEnv := range linksPerStep {
-			referenceLinkEnv = linkEnv
-			referenceKeyID = keyID
-			break
+		// Take the link with the smallest key id as reference link for below
+		// comparisons and as the link that represents the step. Picking just
+		// any link would make the returned link depend on map iteration order.
+		keyIDs := make([]string, 0, len(linksPerStep))
+		for keyID := range linksPerStep {
+			keyIDs = append(keyIDs, keyID)
 		}
+		sort.Strings(keyIDs)
+		referenceKeyID := keyIDs[0]
+		referenceLinkEnv := linksPerStep[referenceKeyID]
 
 		// Only one link, nothing to reduce, take the reference link
 		if len(linksPerStep) == 1 {
